@@ -76,6 +76,7 @@ def strategy(tier):
     return st.fixed_dictionaries({
         'aio': st.booleans(),
         'async_handlers': st.booleans(),
+        'always_connect': st.booleans(),
         'ntrans': st.integers(1, 3),
         'fault': fault,
         'ops': st.lists(op, min_size=3, max_size=14 if tier == 'quick'
@@ -84,7 +85,8 @@ def strategy(tier):
 
 
 def _mk_world(case):
-    w = World(aio=case['aio'], async_handlers=case['async_handlers'])
+    w = World(aio=case['aio'], async_handlers=case['async_handlers'],
+              always_connect=case.get('always_connect', False))
     sio = w.sio
     st_ = {'counts': {}, 'fault': case['fault']}
 
@@ -140,9 +142,12 @@ def _generation(case, w, st_):
             ns = NSS[op['ns']]
             if w.client_on(t, ns) is None:
                 ci, pkts = w.connect(t, ns)
-                if ci is not None and not any(
-                        p['type'] == wire.CONNECT for p in pkts):
-                    w.mark_dead(ci)
+                if ci is not None and (not any(
+                        p['type'] == wire.CONNECT for p in pkts) or any(
+                        p['type'] == wire.DISCONNECT for p in pkts)):
+                    w.mark_dead(ci)     # refused (always_connect: CONNECT
+                    #                     followed by DISCONNECT)
+                    flags.add('refused_after_connect')
             continue
         if k == 'partial':
             ns = NSS[op['ns']]
